@@ -454,3 +454,18 @@ def run(ctx: Context) -> None:  # noqa: F811
     with ctx.rep.borrow({"C04.R4": ("C06.R9", "a connection is marked failed only when its establishment has finally failed: one that is flagged while it is still connecting / retrying looks "
                                               "closed, the pool forgets it without closing anything, and the stream it opens afterwards is owned by nobody and never closed:")}):
         c04.run(ctx)
+
+
+
+_core_run_r10 = run
+
+
+def run(ctx: Context) -> None:  # noqa: F811
+    _core_run_r10(ctx)
+    if ctx.rep._borrow is not None:
+        return
+    from . import support
+
+    ctx.rep.rule("C06.R10", "the assignment pass cannot fail between taking connections off the pool list and returning them for closing: the one partial operation "
+                            "it evaluates (URL.origin: scheme -> default port table) is defined for every scheme the pool's gate admits")
+    support.scheme_gate_within_origin_table(ctx, "C06.R10", "connections already removed from the pool list are neither closed nor reachable from pool close - their streams stay open")
